@@ -220,6 +220,9 @@ func (in *Instance) Verify() (*vc.Engine, error) {
 	e.Hook = ctx.UserMethodHook
 	e.TraceOn = true
 	vc.ConvHook = convHook
+	// the schematic program's struct types keep positional field indices (the
+	// specification functions address symbolic struct fields by position)
+	vc.FieldIDHook = func(owner types.Type, idx int) (int, bool) { return idx, true }
 	e.AddFuncs(in.Pkg, in.Info, []*ast.File{in.File})
 	// Go types of the prelude that stand for symbolic types
 	byGo := map[string]*geval.SymType{}
